@@ -36,10 +36,14 @@ ASSUMPTIONS = [
     'feasibility is judged in the optimizer (scaled) space with tolerance 1e-6*(1+|bound_scaled|) while the '
     'optimizers are run with tolerances <= 1e-9 (>= 100x margin)',
     'trust-constr results are judged for feasibility/optimality only when scipy\'s own constr_violation / '
-    'optimality measures are below 1e-7, so that scipy\'s lax xtol-success is not blamed on OpenMDAO; the '
-    'optimum of a tr_interior_point result is judged only when its final barrier_parameter <= 1e-7 (scipy '
-    'stops on gtol while mu is still 1e-3..1e-4 on n=1 problems) unless a callback/argument monitor saw the '
-    'driver hand scipy a wrong value',
+    'optimality measures are below 1e-7, so that scipy\'s lax xtol-success is not blamed on OpenMDAO',
+    'a tr_interior_point result that misses the optimum is not blamed on OpenMDAO when its final '
+    'barrier_parameter > 1e-7 (scipy stops on gtol while mu is still 1e-3..1e-4, e.g. always for n=1) unless a '
+    'callback/argument monitor saw the driver hand scipy a wrong value',
+    'a miss of the optimum on a problem whose callbacks/arguments were all observed correct is blamed on '
+    'OpenMDAO only if the same scipy call fed from the reference formulas converges AND keeps converging when '
+    'the callback values are perturbed at round-off level (1e-13 relative, 10 trials); otherwise the case is '
+    'discarded as optimizer instability',
     'designs are compared with tolerance 1e-4*(1+|z*|)*sqrt(cond Q) (optimizers run with tol 1e-10; '
     'observed errors are <= 1e-6)',
     'negative scalers on design variables / constraints are exercised in a separate stratum (keys neg-scaler:*)',
@@ -371,12 +375,54 @@ class Monitor:
         return out
 
 
-def run_control(opt, mon, drv, absent=np.inf):
+class _Noisy:
+    """ScaledRef whose values carry a relative perturbation of round-off size (eps ~ 1e-13): what any other
+    correct implementation of the same callbacks would hand to scipy."""
+
+    def __init__(self, sr, eps, seed):
+        self._sr = sr
+        self._eps = eps
+        self._rng = np.random.default_rng(seed)
+        self.ref, self.lo, self.hi, self.n = sr.ref, sr.lo, sr.hi, sr.n
+
+    def _p(self, v):
+        v = np.asarray(v, float)
+        return v * (1.0 + self._eps * self._rng.standard_normal(v.shape))
+
+    def f(self, x):
+        return float(self._p(self._sr.f(x)))
+
+    def g(self, x, key):
+        return self._p(self._sr.g(x, key))
+
+    def grad_f(self, x):
+        return self._p(self._sr.grad_f(x))
+
+    def jac_g(self, x, key):
+        return self._p(self._sr.jac_g(x, key))
+
+
+ROUNDOFF_TRIALS = 10
+
+
+def outcome_is_roundoff_sensitive(opt, mon, drv, zs, tol):
+    """True when scipy's optimizer, given the correctly posed problem with callback values perturbed at
+    round-off level (1e-13 relative), misses the optimum in at least one of ROUNDOFF_TRIALS runs: then
+    missing it is the optimizer's own instability (seen: COBYQA stopping on its minimum trust radius at a
+    non-stationary point in ~1 of 7 perturbed runs), not evidence about the values OpenMDAO supplied."""
+    for t in range(ROUNDOFF_TRIALS):
+        xc = run_control(opt, mon, drv, noise=(1e-13, 7001 + t))
+        if xc is None or np.max(np.abs(mon.sr.z(xc) - zs)) > tol:
+            return True
+    return False
+
+
+def run_control(opt, mon, drv, absent=np.inf, noise=None):
     """The same optimizer-space problem posed directly to scipy from the reference formulas, with the
     same options.  Returns x or None (control failed / raised).  `absent` is the number used for an
     absent bound of a new-style constraint (np.inf, or 1e30 to mimic a finite "infinity")."""
     from scipy.optimize import minimize, NonlinearConstraint, LinearConstraint
-    sr = mon.sr
+    sr = mon.sr if noise is None else _Noisy(mon.sr, noise[0], noise[1])
     cap = mon.captured or {}
     x0 = np.array(cap.get('x0'), float)
     cons = []
@@ -391,8 +437,8 @@ def run_control(opt, mon, drv, absent=np.inf):
             lo_inf = sr.lo[key] <= -af.INF_BOUND
             hi_inf = sr.hi[key] >= af.INF_BOUND
             if c['d'].get('linear') and opt == 'trust-constr':
-                k0 = sr.g(zero, key)
-                cons.append(LinearConstraint(sr.jac_g(zero, key), np.where(lo_inf, -absent, sr.lo[key] - k0),
+                k0 = mon.sr.g(zero, key)
+                cons.append(LinearConstraint(mon.sr.jac_g(zero, key), np.where(lo_inf, -absent, sr.lo[key] - k0),
                                              np.where(hi_inf, absent, sr.hi[key] - k0), keep_feasible=True))
                 continue
             lo = np.where(lo_inf, -absent, sr.lo[key])
@@ -564,10 +610,11 @@ def judge(case, acc):
                         % (z_model.tolist(), z.tolist())))
         lab = mon.label('new-style' if opt in NEW_STYLE else 'old-style')
         if lab:
-            acc.count('obs:anomaly:' + lab)
+            acc.count('obs:anomaly:%s%s' % ('neg-scaler-stratum:' if neg else '', lab))
         # ---- guard for trust-constr: only judge what scipy itself claims converged
         judge_feas = True
         judge_opt = True
+        premature_gtol = False
         if opt == 'trust-constr':
             cv = float(getattr(res, 'constr_violation', 0.0))
             og = float(getattr(res, 'optimality', 0.0))
@@ -580,14 +627,12 @@ def judge(case, acc):
             # scipy's interior point variant stops as soon as its optimality measure (Lagrangian gradient
             # with least-squares multipliers; identically ~0 for n=1) passes gtol, even when the barrier
             # parameter mu has not been driven to barrier_tol (= tol = 1e-10 here); the returned point is
-            # then a central-path point O(mu) away from the optimum.  Not blamed on OpenMDAO unless a
-            # monitor saw the driver hand scipy something wrong.
+            # then a central-path point O(mu) away from the optimum.  A miss of the optimum is then not
+            # blamed on OpenMDAO unless a monitor saw the driver hand scipy something wrong.
             bp = getattr(res, 'barrier_parameter', None)
             anomaly = bool(lab) or any(linrep.values()) or _finite_infinity_passed(mon)
-            if judge_opt and not anomaly and getattr(res, 'method', '') == 'tr_interior_point' \
-                    and bp is not None and float(bp) > 1e-7:
-                judge_opt = False
-                acc.count('guard:trust-constr-barrier-parameter-not-reduced')
+            premature_gtol = (not anomaly and getattr(res, 'method', '') == 'tr_interior_point'
+                              and bp is not None and float(bp) > 1e-7)
         # ---- (ii) elementwise feasibility of the reported design (harness evaluation)
         g = ref.g(z)
         nel = 0
@@ -674,6 +719,9 @@ def judge(case, acc):
                 lin_m = _primary(m for m in linrep.values() if m)
                 if neg:
                     bad.append(('neg-scaler:%s:not-the-optimum' % variant, what))
+                elif premature_gtol:
+                    blamed_scipy = True
+                    acc.count('guard:trust-constr-stopped-on-gtol-before-barrier-parameter-reduced')
                 elif lab:
                     bad.append((lab + ':not-the-optimum', what))
                 elif lin_m:
@@ -681,7 +729,12 @@ def judge(case, acc):
                 else:
                     xc = run_control(opt, mon, drv)
                     acc.count('obs:control-runs')
-                    if xc is not None and np.max(np.abs(mon.sr.z(xc) - zs)) <= tol:
+                    if xc is not None and np.max(np.abs(mon.sr.z(xc) - zs)) <= tol and not (
+                            _finite_infinity_passed(mon) and opt in NEW_STYLE) and \
+                            outcome_is_roundoff_sensitive(opt, mon, drv, zs, tol):
+                        blamed_scipy = True
+                        acc.count('guard:optimizer-outcome-sensitive-to-roundoff:' + opt)
+                    elif xc is not None and np.max(np.abs(mon.sr.z(xc) - zs)) <= tol:
                         key = '%s:not-the-optimum-while-control-run-converges:%s' % (opt, _stratum(spec))
                         if opt in NEW_STYLE and _finite_infinity_passed(mon):
                             # second control: identical, but absent bounds given as the finite number 1e30
